@@ -237,11 +237,9 @@ func sameValue(a, b ssa.Value) bool {
 	if strip(a) == strip(b) {
 		return true
 	}
-	pa, pb := path(a), path(b)
-	if strings.Contains(pa, "@0x") || strings.Contains(pb, "@0x") {
-		return false
-	}
-	return pa == pb
+	// opaque values are rendered with their (unique) address, so equal strings
+	// mean the same SSA value or the same access path rooted in the same value
+	return path(a) == path(b)
 }
 
 // ---------- call helpers ----------
